@@ -91,16 +91,16 @@ PROPS = {
     },
     "C06": {
         "title": "skip() consumes exactly one item",
-        "bounds": "structure: ALL byte strings of length N over the 13-letter alphabet of one-byte items (00 20 80 81 82 83 9f a0 a1 bf c1 f6 ff), N = 1..5 (quick) / ..7 (thorough) "
-                  "in the no-alloc build, N = 1..3 in the alloc build in the THOROUGH tier only (explicit Vec stack: N=2 takes ~13 min; each capped at 2 h); the quick tier checks the alloc build on the heads group only, vs the independent item-boundary parser R3, incl. every strict prefix and arbitrary suffix; "
+        "bounds": "structure: ALL byte strings of length N over the 13-letter alphabet of one-byte items (00 20 80 81 82 83 9f a0 a1 bf c1 f6 ff), N = 1..4 (quick) / ..7 (thorough) "
+                  "in the no-alloc build, N = 1..2 in the alloc build in the THOROUGH tier only (explicit Vec stack: N=2 takes ~13 min; N=3 did not finish inside the session and is not claimed); the quick tier checks the alloc build on the heads group only (chunked strings in the alloc build: thorough), vs the independent item-boundary parser R3, incl. every strict prefix and arbitrary suffix; "
                   "leaf accessors replaced by one-byte models proven equivalent on that domain (c06_lm_*); heads and strings: one item per concrete initial byte with the real accessors; "
                   "full-width counters: a definite array / map head with ANY 8-byte length (symbolic) followed by 0 or 2 one-byte scalars and the end of the input (no-alloc quick, alloc thorough): Ok exactly when the declared item count (2n for maps, unwrapped) is present; "
                   "alloc stack mode behind a concrete prefix (83 9f ff / 82 9f) + one symbolic alphabet byte + 3 bytes over {00, ff} (thorough)",
-        "outside": "more than N one-byte items; multi-byte heads inside nested containers other than the 8-byte-length family (compositional: lm_equiv + heads group); depth-10^4 chains; the alloc build's stack-mode logic beyond N=3 other than behind the three concrete prefixes of c06_stack_mode_* (thorough tier, 20-30 min each); "
+        "outside": "more than N one-byte items; multi-byte heads inside nested containers other than the 8-byte-length family (compositional: lm_equiv + heads group); depth-10^4 chains; the alloc build's stack-mode logic beyond N=2 other than behind the three concrete prefixes of c06_stack_mode_* (thorough tier, 20-30 min each); "
                    "work bounds (a loop that spins without consuming shows up only as an unwinding-assertion failure = inconclusive)",
         "assumptions": ["leaf models (each proven equivalent to the real accessor on the asserted domain)", "from_utf8 modelled as always-valid in the text-head harnesses (boundaries, not validation)"],
-        "groups": [core({"quick": ["c06::c06_lm", "c06::c06_a1", "c06::c06_wide", "c06_gen::q::"], "thorough": ["c06::c06_", "c06_gen::"]}),
-                   core({"quick": ["c06_gen::q::", "c06::c06_lm"], "thorough": ["c06::c06_a1_n1", "c06::c06_a1_n2", "c06::c06_a1_n3", "c06::c06_wide", "c06_gen::", "c06::c06_lm"]}, features=("half", "alloc"),
+        "groups": [core({"quick": ["c06::c06_lm", "c06::c06_a1_n1", "c06::c06_a1_n2", "c06::c06_a1_n3", "c06::c06_a1_n4", "c06::c06_wide", "c06_gen::q::"], "thorough": ["c06::c06_", "c06_gen::"]}),
+                   core({"quick": ["c06_gen::q::c06_head_", "c06::c06_lm"], "thorough": ["c06::c06_a1_n1", "c06::c06_a1_n2", "c06::c06_wide", "c06_gen::", "c06::c06_lm"]}, features=("half", "alloc"),
                         timeout={"quick": 600, "thorough": 7200}, jobs={"quick": 12, "thorough": 6}, mem_gb={"quick": 12, "thorough": 24}),
                    # 16 GB each: three at a time
                    core(["c06::c06_stack_mode"], features=("half", "alloc"), tiers=["thorough"], timeout={"thorough": 7200}, jobs={"thorough": 3}, mem_gb={"thorough": 24})],
@@ -197,7 +197,7 @@ PROPS = {
                   "C03 (every Encoder method), C06 (skip vs R3; the documented no-alloc difference is cfg-ed into the oracle) and, with half, C11 steps / C12 are verified against minicbor built with "
                   "{} and {alloc} (quick: the u8/u64/i8/i64/Int/char accessors, datatype, the u64/i64/simple encoder methods, skip models, skip on N=3/4 and on maps with ANY 8-byte length); thorough adds {std}, {half,std}, {half,alloc} with the same small set (+ C12 with half) and the full C03/C04/C05/C06/C01/C07 sets under {} (the full sets under the alloc builds are not claimed: decode::Error carries a String there and c05_datatype_* alone ran > 25 min each); each harness fixes, for every input in its bound, the Ok/Err outcome, the value and the position, "
                   "so builds that all satisfy it agree with each other. minicbor-derive under {alloc} (wrong-tag error class AND position, a round trip, an encoding); minicbor-serde: C17 Serializer/Deserializer harnesses under {} (quick) and {alloc,half}, {std,half} (thorough; without the three harnesses whose error message is built by format! there); {half} is what C17 itself checks",
-        "outside": "error MESSAGES (static vs formatted) and error classes beyond Ok/Err where the single-build oracle only requires 'an error'; 32-bit targets and atomic32; the alloc-build skip beyond N=3 (all-strings) / the 8-byte-length family with 0 items",
+        "outside": "error MESSAGES (static vs formatted) and error classes beyond Ok/Err where the single-build oracle only requires 'an error'; 32-bit targets and atomic32; the alloc-build skip beyond N=2 (all-strings) / the 8-byte-length family with 0 items",
         "assumptions": ["agreement is derived by transitivity (argument), each build is decided by its own queries"],
         "groups": [
             core({"quick": C20_SMALL + ["c06::c06_a1_n3", "c06::c06_a1_n4", "c06::c06_wide_len_map", "c04::c04_bytes_definite"],
